@@ -2,6 +2,7 @@
 CONSTANTS
   Threads <- T2
   Keys <- K3
+  DirectKeys = {}
   DepsOpts <- G_q
   LoadsOpts <- W2_1q
   SharedOpts = {TRUE, FALSE}
